@@ -16,6 +16,7 @@ from mc.report import Recorder
 
 PID = "C15"
 LEVEL = "exploration"
+REDUCED = {'quick': 'history shard: every third string'}
 RULE = ("cases = (alphabet, ignore set, string) / (DNA string) / (chunk size, overlap, sequence lengths, channels), "
         "each enumerated completely within the bound and duplicate-free by construction; all are non-trivial "
         "(each has an exact expected value from string indexing)")
